@@ -48,8 +48,9 @@ TEXT = {
     "C11": ("Every executed library line of every history of <=3-4 operations on an on-disk filter is a crash point; "
             "the file as a killed process leaves it is recovered and checked; reopen from other working directories "
             "explored by history replay.", "4/C11"),
-    "C12": ("All pairs of reachable operand states (both built by every add sequence to the bound) are united/joined "
-            "and compared cell-for-cell with the single-stream structure; on-disk operands in either position.", "4/C12"),
+    "C12": ("All pairs of reachable operand states (both built by every add/remove sequence to the bound, also as "
+            "results of earlier unions) are united/joined and compared cell-for-cell with the single-stream structure; "
+            "on-disk operands in either position and one long-lived on-disk operand across add/clear/reopen.", "4/C12, 9.3"),
     "C13": ("Same pair space plus incompatible and foreign operands: intersection cells, exact Jaccard ratio, "
             "None/TypeError/CountMinSketchError rules, operands unchanged.", "4/C13"),
     "C14": ("elements_added (and derived load factors / Bloom statistics) compared with the reference model after "
@@ -63,7 +64,9 @@ TEXT = {
     "C18": ("Every byte string of length <=2 (and ASCII/UTF-8 text) x depths 1..8 for every shipped strategy, against an "
             "independent FNV-1a; determinism, length, range, prefix stability.", "4/C18"),
     "C19": ("At every reached state of every system's exploration all read-only calls are executed and the public "
-            "observation vector compared before/after; clear() compared with a fresh object.", "4/C19"),
+            "observation vector compared before/after; a queried clone and an untouched clone are driven through the "
+            "same next 1-3 events and compared (hidden state); answers compared with a freshly loaded copy; clear() "
+            "compared with a fresh object over a short script.", "4/C19, 9.3"),
     "C20": ("Bitarray(n), n=1..10 (14 thorough), explored to closure (all 2^n states) over every write with valid, "
             "negative, out-of-range and padding indices; list[int] model compared through every reader.", "4/C20"),
 }
